@@ -184,6 +184,32 @@ impl Coll<'_> {
                     self.stmts(t);
                     self.stmts(f);
                 }
+                Stmt::Call(fi, args) => {
+                    // collect_call_transfers: actual -> input formal, output
+                    // formal (at its offset) -> every destination of the actual
+                    for (k, a) in args.iter().enumerate() {
+                        match a {
+                            Arg::In(e) => {
+                                for x in self.pieces(e) {
+                                    self.rels.insert(Rel { a: x.var, a_lo: x.var_lo, b: Var::Local(*fi, k), b_lo: x.lo, len: x.len });
+                                }
+                            }
+                            Arg::Out(ts) => {
+                                let mut off = 0;
+                                for t in ts.iter().rev() {
+                                    let (tv, tlo, tw) = match t {
+                                        Target::Sig(p) => (Var::Sig(p.sig), self.pos(p.sig, p.lo), p.w),
+                                        Target::Local(i, lo, w) => (Var::Local(self.cur_fn.unwrap(), *i), *lo, *w),
+                                    };
+                                    self.seeds.insert((tv, tlo));
+                                    self.seeds.insert((tv, tlo + tw));
+                                    self.rels.insert(Rel { a: Var::Local(*fi, k), a_lo: off, b: tv, b_lo: tlo, len: tw });
+                                    off += tw;
+                                }
+                            }
+                        }
+                    }
+                }
             }
         }
     }
@@ -195,8 +221,10 @@ pub fn may_be_coarse(m: &Module) -> bool {
     for (fi, f) in m.funcs.iter().enumerate() {
         c.cur_fn = Some(fi);
         c.stmts(&f.body);
-        let t = [(Var::Ret(fi), 0, f.ret_w)];
-        c.assign(&t, &f.ret);
+        if f.ret_w > 0 {
+            let t = [(Var::Ret(fi), 0, f.ret_w)];
+            c.assign(&t, &f.ret);
+        }
     }
     c.cur_fn = None;
     for it in &m.items {
